@@ -162,7 +162,14 @@ func (c *c20) Run(cs core.Case) core.Result {
 		c.runCapacity(r, p, rng)
 		return r.Done()
 	}
+	dup := false
+	if p.Fmt == "par2" && (p.Seed>>5)%3 == 0 {
+		// identical slices inside and across the protected files
+		c18Content = "dup"
+		dup = true
+	}
 	w, err := newC18World(p.Fmt, p.Seed, "intact", false)
+	c18Content = ""
 	if w != nil {
 		defer w.close()
 	}
@@ -197,6 +204,21 @@ func (c *c20) Run(cs core.Case) core.Result {
 			}
 		}
 		w.idxName = base + w.idxName[1:]
+	}
+	// PAR1 files written by another client carry its identifier in the upper
+	// half of the version field (outside the control hash)
+	if p.Fmt == "par1" && (p.Seed>>7)%3 == 0 {
+		ents, _ := os.ReadDir(setDir)
+		for _, e := range ents {
+			if strings.HasPrefix(e.Name(), base+".") {
+				pth := filepath.Join(setDir, e.Name())
+				if b, err := os.ReadFile(pth); err == nil && len(b) > 16 && string(b[:8]) == "PAR\x00\x00\x00\x00\x00" {
+					copy(b[12:16], []byte{0x01, 0x09, 0x00, 0x02})
+					os.WriteFile(pth, b, 0644)
+				}
+			}
+		}
+		r.Count("par1_sets_with_client_identifier", 1)
 	}
 	idx := spell(w.idxName)
 	dataPath := func(i int) string { return filepath.Join(setDir, w.dataRel[i]) }
@@ -346,13 +368,22 @@ func (c *c20) Run(cs core.Case) core.Result {
 			os.Remove(dataPath(2))
 			os.WriteFile(dataPath(1), []byte("x"), 0644)
 		}
-		expect(vw, verify(), "2")
-		expect(rw, repair(), "2")
+		wantV, wantR := "2", "2"
+		if dup && w.withinCapacity(top) {
+			// duplicates of the lost slices survive elsewhere (decided from the bytes)
+			wantV, wantR = "1", "0"
+		}
+		expect(vw, verify(), wantV)
+		expect(rw, repair(), wantR)
 	case "noparity-damaged":
 		removeVolumes()
 		flip(0)
-		expect(vw, verify(), "2")
-		expect(rw, repair(), "2")
+		wantV, wantR := "2", "2"
+		if dup && w.withinCapacity(top) {
+			wantV, wantR = "1", "0"
+		}
+		expect(vw, verify(), wantV)
+		expect(rw, repair(), wantR)
 	case "noparity-intact":
 		removeVolumes()
 		expect(vw, verify(), "0")
